@@ -52,24 +52,8 @@ theorem vote_is_argmax (refs : List (List Rat)) (x : List Rat) (s : List Nat) (i
     ∃ hi : i < refs.length,
       q = corrSsq (pick s refs[i]) (pick s x) ∧
       (∀ (j : Nat) (hj : j < refs.length), corrSsq (pick s refs[j]) (pick s x) ≤ q) ∧
-      (∀ (j : Nat) (hj : j < refs.length), j < i → corrSsq (pick s refs[j]) (pick s x) < q) := by
-  unfold tallyIter at h
-  split at h
-  · cases h
-  · split at h
-    · cases h
-    · next r hr =>
-      cases h
-      obtain ⟨hi, hs, hmax, hfirst⟩ := nearestLeaf_spec _ _ _ _ hr
-      have hi' : i < refs.length := by rw [List.length_map] at hi; exact hi
-      refine ⟨hi', ?_, ?_, ?_⟩
-      · rw [List.getElem_map] at hs; exact hs
-      · intro j hj
-        have := hmax j (by rw [List.length_map]; exact hj)
-        rw [List.getElem_map] at this; exact this
-      · intro j hj hlt
-        have := hfirst j (by rw [List.length_map]; exact hj) hlt
-        rw [List.getElem_map] at this; exact this
+      (∀ (j : Nat) (hj : j < refs.length), j < i → corrSsq (pick s refs[j]) (pick s x) < q) :=
+  tallyIter_spec refs x s i q h
 
 example : tallyIter [[1, 2, 4], [3, 1, 2], [1, 1, 1]] [1, 2, 5] [0, 1, 2] = .ok (0, 361 / 364) := by
   decide +kernel
@@ -84,6 +68,29 @@ theorem signed_square_decides (r r' s s' : Rat) (hr : r * |r| = s) (hr' : r' * |
   rw [← not_lt, ← not_lt, signed_square_lt_iff]
 
 example : ((1 : Rat) / 2) * |(1 : Rat) / 2| = 1 / 4 := by norm_num [abs_of_pos]
+
+/-- "considering only leaves below the node" and "the child that contains the
+    leaf cluster": the reference rows `assemble_query_data` hands to the vote are
+    exactly the leaves of the node's children (sorted, each once), the type
+    recorded for a row is a child of the node containing that leaf, and in a
+    strict tree (leaf sets of distinct children disjoint, C10) it is THE child
+    containing it.  `kids` / `leavesOf` are the tree's `children` / `as_leaves`. -/
+theorem reference_rows (kids : List Nat) (leavesOf : Nat → List Nat) :
+    (assembleRows kids leavesOf).1.Pairwise (· < ·) ∧
+    (∀ x, x ∈ (assembleRows kids leavesOf).1 ↔ ∃ c ∈ kids, x ∈ leavesOf c) ∧
+    (assembleRows kids leavesOf).2.length = (assembleRows kids leavesOf).1.length ∧
+    (∀ (i : Nat) (hi : i < (assembleRows kids leavesOf).1.length),
+      (assembleRows kids leavesOf).2.getD i 0 ∈ kids ∧
+      (assembleRows kids leavesOf).1[i] ∈ leavesOf ((assembleRows kids leavesOf).2.getD i 0)) ∧
+    ((∀ c ∈ kids, ∀ c' ∈ kids, ∀ x, x ∈ leavesOf c → x ∈ leavesOf c' → c = c') →
+      ∀ (i : Nat) (hi : i < (assembleRows kids leavesOf).1.length) (c : Nat), c ∈ kids →
+        (assembleRows kids leavesOf).1[i] ∈ leavesOf c →
+        (assembleRows kids leavesOf).2.getD i 0 = c) := by
+  obtain ⟨h1, h2, h3, h4⟩ := assembleRows_spec kids leavesOf
+  exact ⟨h1, h2, h3, h4, fun hd i hi c hc hx => assembleRows_unique kids leavesOf hd i hi c hc hx⟩
+
+example : assembleRows [7, 5] (fun c => if c = 7 then [3, 0] else [2, 1]) =
+    ([0, 1, 2, 3], [7, 5, 5, 7]) := by decide +kernel
 
 /-- constant rows ("norm := 1"): a row that is constant over the subset has
     correlation 0 with every row. -/
@@ -189,5 +196,33 @@ theorem runners_are_the_rest (types votes : List Nat) (corr : List Rat) (iters n
 example : keepRunners [{ type := 5, valid := false, avgCorr := 0, prob := 0 },
     { type := 6, valid := true, avgCorr := 1 / 2, prob := 1 / 3 }] = ([6], [1 / 2], [1 / 3]) := by
   decide +kernel
+
+/-- "Recomputing these quantities directly from the input files and the subsets
+    that were drawn reproduces the output", for one cell at one node: whatever
+    subsets were drawn, whatever tie order argsort produced and however many
+    runners-up were requested, the reported child is a child with the largest
+    number of iterations whose arg-max leaf (`vote_is_argmax`) it owns, and the
+    reported probability is that number over the iteration count.  `near` is the
+    list of per-iteration (arg-max leaf, score) the recomputation produces. -/
+theorem recompute (refs : List (List Rat)) (x : List Rat) (types : List Nat)
+    (subsets : List (List Nat)) (corrOf : Nat → Nat → Rat) (nAssign : Nat) (order : List Nat)
+    (ch : Choice) (tally : List Nat × List Rat) (hlen : types.length = refs.length)
+    (htally : tallyVotes refs x subsets corrOf = .ok tally)
+    (hv : ValidOrder (columns types tally.1 tally.2).1 order)
+    (hch : chooseCell types tally.1 tally.2 subsets.length nAssign order = .ok ch) :
+    ∃ near : List (Nat × Rat), subsets.mapM (tallyIter refs x) = .ok near ∧
+      near.length = subsets.length ∧
+      ch.winner ∈ types ∧
+      (∀ t ∈ types, (near.filter (fun r => types.getD r.1 0 == t)).length ≤
+        (near.filter (fun r => types.getD r.1 0 == ch.winner)).length) ∧
+      ch.prob = ((near.filter (fun r => types.getD r.1 0 == ch.winner)).length : Rat) /
+        (subsets.length : Rat) :=
+  node_recompute refs x types subsets corrOf nAssign order ch tally hlen htally hv hch
+
+example : ∃ tally, tallyVotes [[1, 2, 4], [3, 1, 2], [2, 2, 9]] [1, 2, 5] [[0, 1], [0, 2], [0, 1, 2]]
+      (fun _ _ => 1 / 2) = .ok tally ∧
+    (chooseCell [8, 6, 8] tally.1 tally.2 3 2 [1, 0]).toOption.map (fun c => (c.winner, c.prob)) =
+      some (8, 1) := by
+  refine ⟨([3, 0, 0], [3 / 2, 0, 0]), ?_, ?_⟩ <;> decide +kernel
 
 end CTM.C02
